@@ -284,8 +284,8 @@ func (vc *VC) execInstr(fr *Frame, st *State, pc string, in ssa.Instruction) {
 		if t.Reserve != nil {
 			rv := vc.toInt(vc.value(fr, st, t.Reserve))
 			vc.oblige("nopanic.makemap", "", pc, "(<= 0 "+rv.S+")", t.Pos(), "make(map, n): n >= 0")
-			if vc.spec != nil && vc.spec.Overflow {
-				vc.oblige("alloc.bound", "", pc, "(<= "+rv.S+" alloc_hint_max)", t.Pos(), "map size hint bounded")
+			if fr.spec != nil && fr.spec.AllocBound || vc.spec != nil && vc.spec.AllocBound {
+				vc.oblige("alloc.bound", "", pc, "(<= "+rv.S+" alloc_hint_max)", t.Pos(), "allocation size hint is bounded (not chosen freely by the peer)")
 			}
 		}
 		r := vc.newRef(st, pc)
@@ -311,6 +311,23 @@ func (vc *VC) execInstr(fr *Frame, st *State, pc string, in ssa.Instruction) {
 	case *ssa.Lookup:
 		x := vc.value(fr, st, t.X)
 		k := vc.value(fr, st, t.Index)
+		if ld, ok := t.X.(*ssa.UnOp); ok {
+			if g, ok := ld.X.(*ssa.Global); ok {
+				if fname, ok := vc.eng.tableNames[g]; ok {
+					mt := vc.eng.mapTableFor(g, fname)
+					vc.ensureMapTable(mt)
+					in := vc.define("in", SBool, app(mt.hasFn, k.S))
+					val := vc.define("mv", mt.vsort, app(mt.valFn, k.S))
+					vt := Term{S: val, Sort: mt.vsort, T: mt.vt}
+					if t.CommaOk {
+						fr.vals[t] = Sym{Tuple: []Sym{{T: vt}, {T: Term{S: in, Sort: SBool, T: types.Typ[types.Bool]}}}}
+					} else {
+						fr.vals[t] = Sym{T: vt}
+					}
+					return
+				}
+			}
+		}
 		switch u := t.X.Type().Underlying().(type) {
 		case *types.Map:
 			dk, vk, _ := vc.mapKeys(u)
@@ -598,6 +615,7 @@ func (vc *VC) execNext(fr *Frame, st *State, pc string, t *ssa.Next) {
 	vc.emit(fmt.Sprintf("(assert (=> (not %s) (or (= %s 0) (forall ((kk %s)) (! (=> (select %s kk) (select %s kk)) :pattern ((select %s kk)))))))", ok, m, ri.KSort, dom, vis.S, vis.S))
 	v := vc.define("rv", ri.VSort, sel(sel(vc.heapGet(st, vk).S, m), k))
 	vc.assumeAllocated(st, ri.VT, v)
+	vc.assumeAllocated(st, ri.KT, k)
 	vc.heapSet(st, ri.VisKey, mkIte(ok, store(vis.S, k, "true"), vis.S))
 	fr.vals[t] = Sym{Tuple: []Sym{
 		{T: Term{S: ok, Sort: SBool}},
@@ -911,12 +929,10 @@ func (vc *VC) convert(st *State, pc string, x Term, from, to types.Type, pos tok
 			return Term{S: fmt.Sprintf("((_ int2bv %d) %s)", tw, x.S), Sort: ts, T: to}
 		}
 	case isStringType(to) && x.Sort == SSlice:
-		// string(bytes)
-		r := vc.fresh("str", SStr)
+		// string(bytes): the string holding the current contents of the window (snapshot of this memory version)
 		key := vc.memKey(types.Typ[types.Uint8])
 		mem := vc.heapGet(st, key)
-		vc.emit(fmt.Sprintf("(assert (= (s_len %s) (sl.len %s)))", r, x.S))
-		vc.emit(fmt.Sprintf("(assert (forall ((i Int)) (! (=> (and (<= 0 i) (< i (sl.len %s))) (= (s_at %s i) (select (select %s (sl.base %s)) (+ (sl.off %s) i)))) :pattern ((s_at %s i)))))", x.S, r, mem.S, x.S, x.S, r))
+		r := vc.define("str", SStr, fmt.Sprintf("(s_of (select %s (sl.base %s)) (sl.off %s) (sl.len %s))", mem.S, x.S, x.S, x.S))
 		return Term{S: r, Sort: SStr, T: to}
 	case x.Sort == SStr && ts == SSlice:
 		// []byte(s)
